@@ -115,7 +115,9 @@ impl StreamingQueryExecutor {
             .collect();
         let historical_batches = self
             .engine
-            .with_metrics_table(&chunk_paths, || async { self.engine.execute(sql).await })
+            .with_metrics_table(&chunk_paths, sql, |df| async {
+                self.engine.execute_planned(df).await
+            })
             .await?;
 
         let receiver = self.receiver;
